@@ -221,6 +221,6 @@ package gocvss40
 //@   cut_reg[dist36] after getDepth#1 havoc eq3eq6svdst : (= eq3eq6svdst (i2f (dist36_40 cvss40)))
 //@   cut_reg[dist4] after getDepth#1 havoc eq4svdst : (= eq4svdst (i2f (dist4_40 cvss40)))
 //@   ensures[spec] (fp.eq result (tenth (ite (noImpact40 cvss40) 0 (kfrom40 (mveq1_40 cvss40) (mveq2_40 cvss40) (mveq3_40 cvss40) (mveq4_40 cvss40) (mveq5_40 cvss40) (mveq6_40 cvss40) (dist1_40 cvss40) (dist2_40 cvss40) (dist36_40 cvss40) (dist4_40 cvss40)))))
-//@   ensures[one_decimal_in_scale] (exists-in (k 0 100) (fp.eq result (tenth k)))
+//@   ensures[one_decimal_in_scale] (isTenthIn result 0 100)
 //@   ensures[rating_accepts] (>= (ratingClass result) 0)
 //@   ensures[no_allocation] (= allocs (old allocs))
